@@ -30,7 +30,7 @@ theorem storeMtp_good {w w' : W} (hg : Good w) (h : w.storeMtp = .ok w') :
   obtain ⟨hmem, hk0⟩ := getMtpL_some_mem hm0
   have ht := Trans.modify hg.wf.keys hm0
   rw [h']
-  refine ⟨⟨?_, ?_, ?_, ?_, hg.home⟩, rfl, rfl, ⟨fun k' hk' => getMtpL_setMtpL_other _ hk', fun _ _ => rfl⟩⟩
+  refine ⟨⟨?_, ?_, ?_, ?_, hg.home⟩, rfl, rfl, ⟨fun k' hk' => getMtpL_setMtpL_other _ hk', fun _ _ => rfl, rfl⟩⟩
   · unfold OKp
     simp only []
     refine ⟨?_, ?_, ?_, ?_⟩
@@ -188,10 +188,11 @@ theorem processMtps_inv {fx : Fixes} (h1 : fx.iipCopy = true) (h2 : fx.fcAtomic 
     ∀ (ms : List Mtp) (s : State) (p : Pool), LoopInv s p → (ms.map Mtp.key).Nodup →
       (∀ m ∈ ms, Synced s m ∧ m.poolSym = p.sym) →
       LoopInv (processMtps fx ms s p).1 (processMtps fx ms s p).2 ∧ (processMtps fx ms s p).2.sym = p.sym ∧
-        (∀ y, y ≠ p.sym → getPoolL (processMtps fx ms s p).1.pools y = getPoolL s.pools y) := by
+        (∀ y, y ≠ p.sym → getPoolL (processMtps fx ms s p).1.pools y = getPoolL s.pools y) ∧
+        (processMtps fx ms s p).1.mtpCount = s.mtpCount := by
   intro ms
   induction ms with
-  | nil => intro s p hl _ _; exact ⟨hl, rfl, fun _ _ => rfl⟩
+  | nil => intro s p hl _ _; exact ⟨hl, rfl, fun _ _ => rfl, rfl⟩
   | cons m ms ih =>
     intro s p hl hnd hall
     simp only [List.map_cons, List.nodup_cons] at hnd
@@ -208,8 +209,8 @@ theorem processMtps_inv {fx : Fixes} (h1 : fx.iipCopy = true) (h2 : fx.fcAtomic 
       have hne : m'.key ≠ m.key := by
         intro h; apply hnd.1; rw [← h]; exact List.mem_map_of_mem hm'
       exact ⟨⟨m0, by rw [hframe.mtps _ hne]; exact hm0, hs0⟩, by rw [hsym]; exact hh⟩
-    obtain ⟨r1, r2, r3⟩ := ih w'.s w'.pool inv hnd.2 hall'
-    refine ⟨r1, r2.trans hsym, ?_⟩
+    obtain ⟨r1, r2, r3, r4⟩ := ih w'.s w'.pool inv hnd.2 hall'
+    refine ⟨r1, r2.trans hsym, ?_, r4.trans hframe.count⟩
     intro y hy
     rw [r3 y (by rw [hsym]; exact hy)]
     exact hframe.pools y hy
@@ -251,7 +252,7 @@ theorem mtpsForPool_home {s : State} {sym : Asset} {m : Mtp} (hwf : WFp s) (hsym
 theorem bbPool_inv {fx : Fixes} (h1 : fx.iipCopy = true) (h2 : fx.fcAtomic = true) {s s' : State} {p p0 : Pool} {rate : Option Dec}
     (hok : OKp s) (hwf : WFp s) (hp0 : getPoolL s.pools p.sym = some p0)
     (hc : ∀ b, p0.cust b = p.cust b) (hl : ∀ b, p0.liab b = p.liab b) (h : bbPool fx s p rate = .ok s') :
-    OKp s' ∧ WFp s' ∧ (∀ y, y ≠ p.sym → getPoolL s'.pools y = getPoolL s.pools y) := by
+    OKp s' ∧ WFp s' ∧ (∀ y, y ≠ p.sym → getPoolL s'.pools y = getPoolL s.pools y) ∧ s'.mtpCount = s.mtpCount := by
   have hnn : isNative p.sym = false := by
     obtain ⟨hmem, hs⟩ := getPoolL_some hp0
     rw [← hs]; exact hwf.nonNative p0 hmem
@@ -259,7 +260,7 @@ theorem bbPool_inv {fx : Fixes} (h1 : fx.iipCopy = true) (h2 : fx.fcAtomic = tru
   simp only [] at h
   split at h
   · split at h
-    · simp at h; rw [← h]; exact ⟨hok, hwf, fun _ _ => rfl⟩
+    · simp at h; rw [← h]; exact ⟨hok, hwf, fun _ _ => rfl, rfl⟩
     · rename_i r
       obtain ⟨hh, _, h⟩ := bind_ok h
       have h := pure_ok h
@@ -277,12 +278,12 @@ theorem bbPool_inv {fx : Fixes} (h1 : fx.iipCopy = true) (h2 : fx.fcAtomic = tru
       have hndsnap : ((mtpsForPool (s.setPool p3) p.sym).map Mtp.key).Nodup := by
         unfold mtpsForPool
         exact List.Nodup.sublist (List.Sublist.map _ List.filter_sublist) wf1.keys
-      obtain ⟨r1, r2, r3⟩ := processMtps_inv h1 h2 _ _ _ inv1 hndsnap hsnap
-      generalize processMtps fx (mtpsForPool (s.setPool p3) p.sym) (s.setPool p3) p3 = sp at h r1 r2 r3
+      obtain ⟨r1, r2, r3, r4⟩ := processMtps_inv h1 h2 _ _ _ inv1 hndsnap hsnap
+      generalize processMtps fx (mtpsForPool (s.setPool p3) p.sym) (s.setPool p3) p3 = sp at h r1 r2 r3 r4
       obtain ⟨q0, hq0, hqc, hql⟩ := r1.pool
       obtain ⟨ok2, wf2⟩ := setPool_sameLedger r1.ok r1.wf hq0 hqc hql
       rw [← h]
-      refine ⟨ok2, wf2, ?_⟩
+      refine ⟨ok2, wf2, ?_, r4⟩
       intro y hy
       unfold State.setPool
       simp only []
@@ -292,23 +293,26 @@ theorem bbPool_inv {fx : Fixes} (h1 : fx.iipCopy = true) (h2 : fx.fcAtomic = tru
     rw [← h]
     obtain ⟨ok1, wf1⟩ := setPool_sameLedger (p := ({ p with biE := 0, biN := 0 } : Pool)) hok hwf hp0
       (fun b => by rw [hc b]; cases b <;> rfl) (fun b => by rw [hl b]; cases b <;> rfl)
-    refine ⟨ok1, wf1, ?_⟩
+    refine ⟨ok1, wf1, ?_, rfl⟩
     intro y hy
     exact getPoolL_setPoolL_other _ hy
 
 theorem bbPools_inv {fx : Fixes} (h1 : fx.iipCopy = true) (h2 : fx.fcAtomic = true) (rates : Asset → Option Dec) :
     ∀ (ps : List Pool) (s s' : State), OKp s → WFp s → (ps.map (fun q => q.sym)).Nodup →
-      (∀ q ∈ ps, getPoolL s.pools q.sym = some q) → bbPools fx rates ps s = .ok s' → OKp s' ∧ WFp s' := by
+      (∀ q ∈ ps, getPoolL s.pools q.sym = some q) → bbPools fx rates ps s = .ok s' →
+      OKp s' ∧ WFp s' ∧ s'.mtpCount = s.mtpCount := by
   intro ps
   induction ps with
-  | nil => intro s s' hok hwf _ _ h; simp [bbPools] at h; rw [← h]; exact ⟨hok, hwf⟩
+  | nil => intro s s' hok hwf _ _ h; simp [bbPools] at h; rw [← h]; exact ⟨hok, hwf, rfl⟩
   | cons p ps ih =>
     intro s s' hok hwf hnd hall h
     simp only [List.map_cons, List.nodup_cons] at hnd
     unfold bbPools at h
     obtain ⟨s1, hs1, h⟩ := bind_ok h
-    obtain ⟨ok1, wf1, fr⟩ := bbPool_inv h1 h2 hok hwf (hall p List.mem_cons_self) (fun _ => rfl) (fun _ => rfl) hs1
-    apply ih s1 s' ok1 wf1 hnd.2 _ h
+    obtain ⟨ok1, wf1, fr, hc1⟩ := bbPool_inv h1 h2 hok hwf (hall p List.mem_cons_self) (fun _ => rfl) (fun _ => rfl) hs1
+    have hq' : ∀ q ∈ ps, getPoolL s1.pools q.sym = some q := ?_
+    · obtain ⟨a, b, c⟩ := ih s1 s' ok1 wf1 hnd.2 hq' h
+      exact ⟨a, b, c.trans hc1⟩
     intro q hq
     have hne : q.sym ≠ p.sym := by
       intro he; apply hnd.1; rw [← he]; exact List.mem_map_of_mem (f := fun q => q.sym) hq
@@ -317,10 +321,11 @@ theorem bbPools_inv {fx : Fixes} (h1 : fx.iipCopy = true) (h2 : fx.fcAtomic = tr
 
 /-- **BeginBlocker of the repaired code preserves the invariant**, whatever the new interest rates -/
 theorem beginBlocker_inv {fx : Fixes} (h1 : fx.iipCopy = true) (h2 : fx.fcAtomic = true) {s s' : State}
-    {rates : Asset → Option Dec} (hok : OKp s) (hwf : WFp s) (h : beginBlocker fx s rates = .ok s') : OKp s' ∧ WFp s' := by
+    {rates : Asset → Option Dec} (hok : OKp s) (hwf : WFp s) (h : beginBlocker fx s rates = .ok s') :
+    OKp s' ∧ WFp s' ∧ s'.mtpCount = s.mtpCount := by
   unfold beginBlocker at h
   split at h
   · exact bbPools_inv h1 h2 rates s.pools s s' hok hwf hwf.syms (fun q hq => getPoolL_of_mem hwf.syms hq) h
-  · simp at h; rw [← h]; exact ⟨hok, hwf⟩
+  · simp at h; rw [← h]; exact ⟨hok, hwf, rfl⟩
 
 end Sif.Margin
